@@ -4,7 +4,7 @@
    specification: C05/Spec.v (a multiset of pending timers). *)
 From Coq Require Import ZArith List Bool Sorted.
 From FV Require Import C05.Model C05.Spec C05.Geom C05.WheelInv C05.Refine C05.Machine C05.SpecFacts C05.Proofs
-  C05.HeapArr C05.HeapOps C05.HeapRefine.
+  C05.HeapArr C05.HeapOps C05.HeapRefine C05.BucketModel C05.BucketProofs.
 Import ListNotations.
 Open Scope Z_scope.
 
@@ -209,6 +209,32 @@ Theorem c05_heap_array_refines_spec : forall ops now,
   Forall2 out_eq (snd (arun (ainit now) ops)) (snd (srun (sinit false now) ops)).
 Proof. exact heap_array_refines_spec. Qed.
 Print Assumptions c05_heap_array_refines_spec.
+
+(* ---- a wheel bucket as a real doubly linked list (BucketModel.v: head/tail pointers,
+   next/prev fields, addNode / removeNode+unchain / replaceInit transcribed) refines the
+   flat list the wheel model uses: [repr b L] = the bucket holds exactly the nodes L in
+   this order (head = first, tail = last, neighbours linked both ways) ---- *)
+Theorem c05_bucket_add : forall b L n,
+  repr b L -> ~ In n L -> bnext b n = None -> bprev b n = None -> repr (b_add b n) (L ++ [n]).
+Proof. exact add_repr. Qed.
+Print Assumptions c05_bucket_add.
+
+(* removeNode unlinks exactly the given node from ANY position (only node, head, middle,
+   tail) and leaves it unchained *)
+Theorem c05_bucket_remove : forall b l1 n l2,
+  repr b (l1 ++ n :: l2) ->
+  repr (b_remove b n) (l1 ++ l2) /\ bnext (b_remove b n) n = None /\ bprev (b_remove b n) n = None.
+Proof. exact remove_repr. Qed.
+Print Assumptions c05_bucket_remove.
+
+(* replaceInit empties the bucket; walking node.next from the old head (as cascade and
+   expireNear do) visits exactly L in order *)
+Theorem c05_bucket_replace_init : forall b L,
+  repr b L ->
+  repr (snd (b_replace_init b)) [] /\
+  b_walk (length L) (bnext b) (fst (b_replace_init b)) = L.
+Proof. exact replace_init_repr. Qed.
+Print Assumptions c05_bucket_replace_init.
 
 (* non-vacuity: the design's failing inputs, now computed by the model — position 1000,
    delay 5 fires during tick 1005; position 16000, delay 500 (slot 0 of level 1) fires
